@@ -356,8 +356,30 @@ def gen_mm_frames(rng, tier):
                    lines=['(ops mmf %s %s %s %s %s %s)' % (rng.choice(['min', 'max']), enc_in(a), enc_in(b), how, m, ch)])
 
 
+MMX = ['df1x+df1y', 'df1x+df1y', 'df1x+df1x', 'df1+df', 'df1+ts', 'df1+num', 'dfab+dfxy+ts', 'dfab+dfxy+num']
+
+
+def gen_mm_mixed(rng, tier):
+    """min_ / max_ with ONE-column frames, and frames without a common column beside a Series: not in the Lean model (the driver
+    answers bad-op), the statement is checked directly (check_mm_mixed); known finding C08-A2 lives here"""
+    n = 80 if tier == 'quick' else 2000
+    for _ in range(n):
+        shape = rng.choice(MMX)
+        days, rel = rand_fdays(rng, 3)
+        ts = lambda j: rand_series(rng, days[j], VALS)
+        df = lambda j, names: rand_frame(rng, days[j], VALS, names)
+        xs = {'df1x+df1y': lambda: [df(0, ['x']), df(1, ['y'])], 'df1x+df1x': lambda: [df(0, ['x']), df(1, ['x'])],
+              'df1+df': lambda: [df(0, ['z']), df(1, rng.choice(COLSETS))], 'df1+ts': lambda: [df(0, ['z']), ts(1)],
+              'df1+num': lambda: [df(0, ['z']), rng.choice(VALS)], 'dfab+dfxy+ts': lambda: [df(0, ['a', 'b']), df(1, ['x', 'y']), ts(2)],
+              'dfab+dfxy+num': lambda: [df(0, ['a', 'b']), df(1, ['x', 'y']), rng.choice(VALS)]}[shape]()
+        if rng.random() < 0.5:
+            xs = xs[::-1]
+        yield dict(tag='mmx/%s' % shape, lines=['(ops mmx %s %s)' % (rng.choice(['min', 'max']), enc_in(xs))])
+
+
 def generate(rng, tier):
     yield from gen_mm_frames(rng, tier)
+    yield from gen_mm_mixed(rng, tier)
     yield from gen_series(rng, tier)
     yield from gen_frames(rng, tier)
     yield from gen_others(rng, tier)
@@ -494,6 +516,9 @@ def run_line(state, sx):
         if not A.same_tree(xs, before):
             return 'violation input-modified'
         return 'ok ' + enc_out(res, sort_columns=True)
+    if op == 'mmx':        # min_ / max_ with one-column frames: checked against the statement itself
+        bad = check_mm_mixed(args[0], dec_in(args[1]))
+        return 'violation ' + bad if bad else 'ok mmx-checked'
     if op == 'aggx':       # aggregates over mixed operands: checked against the statement itself
         bad = check_agg_mixed(args[0], dec_in(args[1]))
         return 'violation ' + bad if bad else 'ok aggx-checked'
@@ -504,7 +529,7 @@ def run_line(state, sx):
 
 
 def compare(case, i, line, ir, mr):
-    if line.startswith('(ops frames ') or line.startswith('(ops aggx '):
+    if line.startswith('(ops frames ') or line.startswith('(ops aggx ') or line.startswith('(ops mmx '):
         return ir if ir.startswith('violation') else None
     if proto.same_reply(ir, mr):
         # same_reply compares (D ..) nodes as sets: the ORDER of the result columns of the operators (theorems
@@ -669,6 +694,57 @@ def check_agg_mixed(g, xs):
     return None
 
 
+def check_mm_mixed(name, xs):
+    """min_ / max_ (default policies: inner index, common columns) over any mix of one-column frames, frames, Series and scalars:
+    the result lives on the common index; each of its columns is a column of the frames with several columns (or the one value
+    column when there is none), and cell (t, c) is the pointwise min / max of what every operand shows there - a one-column
+    frame and a Series their value at t whatever the column, a scalar itself - NaN if any of them is NaN"""
+    pds = [x for x in xs if isinstance(x, (pd.Series, pd.DataFrame))]
+    try:
+        res = _fn(name + '_')(xs)
+    except Exception as e:
+        return '%s_ raised %s: %s' % (name, type(e).__name__, str(e)[:100])
+    idx = A.expected_index(pds, 'ij')
+    if not isinstance(res, (pd.Series, pd.DataFrame)):
+        return '%s_ returned a %s' % (name, type(res).__name__)
+    if list(res.index) != list(idx):
+        return '%s_: index %s, the common index is %s' % (name, [str(t)[:10] for t in res.index], [t.day for t in idx])
+    multi = [x for x in pds if isinstance(x, pd.DataFrame) and x.shape[1] > 1]
+    cols = sorted(set.intersection(*[set(x.columns) for x in multi])) if multi else [None]
+    got_cols = sorted(res.columns) if isinstance(res, pd.DataFrame) else [None]
+    if multi and got_cols != cols:
+        return '%s_: columns %s, the common columns are %s' % (name, got_cols, cols)
+    if not multi and len(got_cols) != 1:
+        return '%s_ of one-column operands has the columns %s (%s)' % (name, got_cols, enc_out(res, True))
+    f = XOPS[name]
+    for c, gc in zip(cols, got_cols):
+        want = None
+        for x in xs:
+            if isinstance(x, pd.DataFrame):
+                v = A.expected_series(x[c] if x.shape[1] > 1 else x.iloc[:, 0], idx, None)
+            elif isinstance(x, pd.Series):
+                v = A.expected_series(x, idx, None)
+            else:
+                v = [float(x)] * len(idx)
+            want = v if want is None else [f(p, q) for p, q in zip(want, v)]
+        got = list(map(float, (res[gc] if isinstance(res, pd.DataFrame) else res).values))
+        if not A.same_vals(got, want):
+            return '%s_: column %s holds %s, the statement gives %s' % (name, gc, got, want)
+    return None
+
+
+def mm_one_column_frames(f):
+    """C08-A2: min_ / max_ whose operands hold two one-column frames of different names (np.minimum aligns them BY NAME), or
+    frames without a common column beside a Series (`_align_columns` concatenates zero copies of the Series)"""
+    line = f.case['lines'][0]
+    if not line.startswith('(ops mmx '):
+        return False
+    ts, one, multi = _kinds(proto.parse(line)[3])
+    sx = proto.parse(line)[3]
+    heads = [set(kv[0] for kv in x[1][2][1:]) for x in sx[1:] if x[0] == 'df' and len(x[1][2]) > 2]
+    return len(set(one)) >= 2 or (ts >= 1 and len(heads) >= 2 and not set.intersection(*heads))
+
+
 def _kinds(sx):
     """(series, one-column frames [names], multi-column frames) among the operands of an agg line"""
     ts = sum(1 for x in sx[1:] if x[0] == 'ts')
@@ -826,4 +902,4 @@ def laws(rng, tier, ctx):
 
 
 shrink = W.shrink
-MATCHERS = {'agg_mixed_operands': agg_mixed_operands}
+MATCHERS = {'agg_mixed_operands': agg_mixed_operands, 'mm_one_column_frames': mm_one_column_frames}
